@@ -94,6 +94,53 @@ theorem parent_isDir_of_kid {s : St} (hc : Consistent s) {pp : Path} {pm : MNode
     have : (s.disk.statReal r).isDir = false := by simp [Disk.statReal, hl0, hp0, hd]
     simp [localExp, hr, takeDirs, this, newFromReals]
 
+theorem takeDirs_prefix' (d : Disk) : ∀ l : List Real, takeDirs d l <+: l
+  | [] => List.prefix_refl _
+  | r :: rest => by
+    unfold takeDirs
+    split
+    · exact List.nil_prefix
+    · split
+      · exact List.nil_prefix
+      · split
+        · exact ⟨rest, rfl⟩
+        · exact (List.prefix_cons_inj r).2 (takeDirs_prefix' d rest)
+
+/-- what LOOKUP answers for a node whose only real inode is an upper one -/
+theorem specStat_upper_single {s : St} (hc : Consistent s) {q : Path} {m : MNode} {ri : Real}
+    (hm : s.mem q = some m) (hr : m.reals = [ri]) (hw : ri.whiteout = false) (hl : ri.layer = 0)
+    (hp : ri.path = q) : specStat s.disk q = some (s.disk.nodeAt 0 q) := by
+  rw [specStat_of_mem hc hm, hr]
+  simp [headStat, hw, Disk.statReal, hl, hp]
+
+/-- ... and nothing is visible below it where the upper layer has nothing -/
+theorem specStat_child_upper_single {s : St} (hc : Consistent s) {q : Path} {m : MNode} {ri : Real}
+    (hm : s.mem q = some m) (hr : m.reals = [ri]) (hl : ri.layer = 0) (hp : ri.path = q) (c : Name)
+    (habs : (s.disk.nodeAt 0 (c :: q)).isAbsent = true) : specStat s.disk (c :: q) = none := by
+  rw [specStat_eq, ← localExp_eq_exp (hc.reals q m hm) c]
+  have hlc : lookupChild s.disk ri c = none := by
+    unfold lookupChild
+    split
+    · rfl
+    · rw [hl, hp]
+      cases hx : s.disk.nodeAt 0 (c :: q) <;> simp_all [Node.isAbsent]
+  have htd : (takeDirs s.disk [ri]).filterMap (lookupChild s.disk · c) = [] := by
+    have := takeDirs_sub s.disk [ri]
+    cases ht : takeDirs s.disk [ri] with
+    | nil => rfl
+    | cons a t =>
+      have ha : a = ri := by simpa using this a (by rw [ht]; simp)
+      have htn : t = [] := by
+        have hp := (takeDirs_prefix' s.disk [ri])
+        rw [ht] at hp
+        have := hp.length_le
+        cases t with
+        | nil => rfl
+        | cons b t' => simp at this
+      rw [htn, ha]
+      simp [hlc]
+  simp [localExp, hr, htd, newFromReals, headStat]
+
 theorem createTailG_cons {s : St} (hc : Consistent s) (pp : Path) (n : Name) (isMkdir : Bool)
     (old : Option MNode) (mk : Real → M Real) (X : Node) (hX : NewEntry isMkdir X)
     {C : Layer → Prop} (hML : MkLike mk n X C)
@@ -104,7 +151,9 @@ theorem createTailG_cons {s : St} (hc : Consistent s) (pp : Path) (n : Name) (is
       | some o => s.mem (n :: pp) = some o ∧ o.whiteout = true) :
     Outcome (createTailG pp n isMkdir old mk s)
       (fun _ s' => Consistent s' ∧
-        (isMkdir = true → old.isSome = true → (s'.disk.nodeAt 0 (n :: pp)).isOpaqueDir = true))
+        (isMkdir = true → old.isSome = true → (s'.disk.nodeAt 0 (n :: pp)).isOpaqueDir = true) ∧
+        (∃ X', specStat s'.disk (n :: pp) = some X' ∧ X'.view = X.view) ∧
+        (isMkdir = true → ∀ c, specStat s'.disk (c :: n :: pp) = none))
       (fun s' => Consistent s') := by
   have hl := hc.toLocal
   obtain ⟨pr, hpr, hprl, hprp, hpru, _, _, _⟩ := upper_head hc hpm hpu
@@ -174,7 +223,20 @@ theorem createTailG_cons {s : St} (hc : Consistent s) (pp : Path) (n : Name) (is
         (by rw [hloc, hreal]; exact Or.inl rfl)
         (by simp [newNode, headWhiteout])
         (by rw [hloc]; simp) []
-      exact ⟨this.congr (by rw [hd2, hdisk1]) (by rw [hm2, hm1]), fun _ h => by cases h⟩
+      have hcf := this.congr (by rw [hd2, hdisk1]) (by rw [hm2, hm1])
+      have hmf : s2.mem (n :: pp) = some (newNode (childReal pr n)) := by
+        rw [hm2, hm1, insertedMem_apply]; simp [cons_ne_self]
+      have hnf : ∀ q, s2.disk.nodeAt 0 q = if q = n :: pp then X else s.disk.nodeAt 0 q := by
+        intro q; rw [hd2, hdisk1, nodeAt_setUpper _ _ _ hu]; simp
+      have hleafL : ∀ c, (s.disk.nodeAt 0 (c :: n :: pp)).isAbsent = true := by
+        intro c
+        have := leaf_of_nondir (hl.trees 0 L hup) (q := n :: pp)
+          (by cases hx : L (n :: pp) <;> simp_all [Node.isAbsent, Node.isDir]) c
+        simpa [Disk.nodeAt, Disk.layer, hup] using this
+      refine ⟨hcf, fun _ h => (by cases h), ⟨X, ?_, rfl⟩, fun _ c => ?_⟩
+      · rw [specStat_upper_single (ri := childReal pr n) hcf hmf rfl (by simp [hri]) (by simp [hri]) (by simp [hri]), hnf]; simp
+      · refine specStat_child_upper_single (ri := childReal pr n) hcf hmf rfl (by simp [hri]) (by simp [hri]) c ?_
+        rw [hnf, if_neg (cons_ne_self c (n :: pp))]; exact hleafL c
   | some o =>
     obtain ⟨hom, how⟩ := hold
     obtain ⟨pm', hpm', hnk⟩ := hl.reach n pp o hom
@@ -269,6 +331,23 @@ theorem createTailG_cons {s : St} (hc : Consistent s) (pp : Path) (n : Name) (is
       have : (s.disk.nodeAt ro.layer (n :: pp)).isWhiteout = true := by rw [← hsh.2.2]; exact hrow
       simp only [Disk.statReal, hsh.1]
       cases hx : s.disk.nodeAt ro.layer (n :: pp) <;> simp_all [Node.isWhiteout, Node.isDir])
+    have hleafL : ∀ c, (s.disk.nodeAt 0 (c :: n :: pp)).isAbsent = true := by
+      intro c
+      have hnd : (L (n :: pp)).isDir = false := by
+        by_cases hou : o.inUpper = true
+        · obtain ⟨r0, _, hl0, hp0, _, hw0, rest0, hr0⟩ := upper_head hc hom hou
+          rw [hro] at hr0
+          have : ro = r0 := by injection hr0
+          subst this
+          have : (s.disk.nodeAt 0 (n :: pp)).isWhiteout = true := by rw [← hw0]; exact hrow
+          have : (L (n :: pp)).isWhiteout = true := by simpa [Disk.nodeAt, Disk.layer, hup] using this
+          cases hx : L (n :: pp) <;> simp_all [Node.isWhiteout, Node.isDir]
+        · simp only [Bool.not_eq_true] at hou
+          obtain ⟨_, _, _, habs, _⟩ := lowerDir_facts hc n pp hpm hom hpu hou hro
+          have : (L (n :: pp)).isAbsent = true := by simpa [Disk.nodeAt, Disk.layer, hup] using habs
+          cases hx : L (n :: pp) <;> simp_all [Node.isAbsent, Node.isDir]
+      have := leaf_of_nondir (hl.trees 0 L hup) hnd c
+      simpa [Disk.nodeAt, Disk.layer, hup] using this
     simp only [installChild]
     cases isMkdir with
     | true =>
@@ -297,9 +376,16 @@ theorem createTailG_cons {s : St} (hc : Consistent s) (pp : Path) (n : Name) (is
           exact Or.inr ⟨_, rfl, rfl, by simp [newNode, hri, staleOf, Node.isOpaqueDir]⟩)
         (by simp [newNode, headWhiteout, hri])
         (by rw [hloc]; simp) []
-      refine ⟨this.congr hdisk4 (by rw [hm4, hm3, hmem2]), fun _ _ => ?_⟩
-      rw [hdisk4, nodeAt_setUpper _ _ _ hu]
-      simp [Node.isOpaqueDir]
+      have hcf := this.congr hdisk4 (by rw [hm4, hm3, hmem2])
+      have hmf : s4.mem (n :: pp) = some (newNode (childReal pr n)) := by
+        rw [hm4, hm3, hmem2, insertedMem_apply]; simp [cons_ne_self]
+      have hnf : ∀ q, s4.disk.nodeAt 0 q = if q = n :: pp then .dir mode 1 0 else s.disk.nodeAt 0 q := by
+        intro q; rw [hdisk4, nodeAt_setUpper _ _ _ hu]; simp
+      refine ⟨hcf, fun _ _ => ?_, ⟨.dir mode 1 0, ?_, by rw [hXd]; rfl⟩, fun _ c => ?_⟩
+      · rw [hnf]; simp [Node.isOpaqueDir]
+      · rw [specStat_upper_single (ri := childReal pr n) hcf hmf rfl (by simp [hri]) (by simp [hri]) (by simp [hri]), hnf]; simp
+      · refine specStat_child_upper_single (ri := childReal pr n) hcf hmf rfl (by simp [hri]) (by simp [hri]) c ?_
+        rw [hnf, if_neg (cons_ne_self c (n :: pp))]; exact hleafL c
     | false =>
       simp only [Bool.false_eq_true, if_false]
       obtain ⟨s3, hadd, hd3, hm3⟩ := addUpperInode_ok' (s := s2) (childReal pr n) true (by rw [hmem2]; exact hom)
@@ -328,7 +414,14 @@ theorem createTailG_cons {s : St} (hc : Consistent s) (pp : Path) (n : Name) (is
           rw [hokids] at this; cases this)
         (by simp [addUpperNode, headWhiteout, hri])
         (by rw [hloc]; simp) []
-      exact ⟨this.congr (by rw [hd3, hdisk2]) (by rw [hm3, hmem2]), fun h => by cases h⟩
+      have hcf := this.congr (by rw [hd3, hdisk2]) (by rw [hm3, hmem2])
+      have hmf : s3.mem (n :: pp) = some (addUpperNode o (childReal pr n) true) := by
+        rw [hm3, hmem2]; simp [Mem.set]
+      have hnf : ∀ q, s3.disk.nodeAt 0 q = if q = n :: pp then X else s.disk.nodeAt 0 q := by
+        intro q; rw [hd3, hdisk2, nodeAt_setUpper _ _ _ hu]; simp
+      refine ⟨hcf, fun h => (by cases h), ⟨X, ?_, rfl⟩, fun h => (by cases h)⟩
+      rw [specStat_upper_single (ri := childReal pr n) hcf hmf (by simp [addUpperNode]) (by simp [hri]) (by simp [hri]) (by simp [hri]), hnf]
+      simp
 
 theorem createTail_cons {s : St} (hc : Consistent s) (pp : Path) (n : Name) (isMkdir : Bool)
     (old : Option MNode) (meth : Method) (X : Node) (hX : NewEntry isMkdir X)
@@ -338,7 +431,9 @@ theorem createTail_cons {s : St} (hc : Consistent s) (pp : Path) (n : Name) (isM
       | some o => s.mem (n :: pp) = some o ∧ o.whiteout = true) :
     Outcome (createTail pp n isMkdir old meth X s)
       (fun _ s' => Consistent s' ∧
-        (isMkdir = true → old.isSome = true → (s'.disk.nodeAt 0 (n :: pp)).isOpaqueDir = true))
+        (isMkdir = true → old.isSome = true → (s'.disk.nodeAt 0 (n :: pp)).isOpaqueDir = true) ∧
+        (∃ X', specStat s'.disk (n :: pp) = some X' ∧ X'.view = X.view) ∧
+        (isMkdir = true → ∀ c, specStat s'.disk (c :: n :: pp) = none))
       (fun s' => Consistent s') :=
   createTailG_cons hc pp n isMkdir old (fun pr => pr.mkNode meth n X) X hX (mkLike_mkNode meth n X)
     (fun _ _ => ⟨trivial, trivial⟩) hpm hpu hlo hold
@@ -357,7 +452,8 @@ theorem copyNodeUp_spec (p : Path) (s : St) (hc : Consistent s) :
         cases h : s.disk.upper with
         | none => have := no_upper_not_inUpper hc h hm; rw [this] at hmu; cases hmu
         | some L => rfl
-      exact ⟨hc, ⟨m, hm, hmu⟩, rfl, hu, fun _ _ => rfl, fun p' m0 h => ⟨m0, h, rfl, rfl⟩, StatKept.refl s⟩
+      exact ⟨hc, ⟨m, hm, hmu⟩, rfl, hu, fun _ _ => rfl, fun p' m0 h => ⟨m0, h, rfl, rfl⟩, StatKept.refl s,
+        ImgKept.refl hc hm hmu⟩
     · simp only [hmu, Bool.false_eq_true, if_false]
       simp only [Bool.not_eq_true] at hmu
       have hst := nodeStat_eq hc hm
@@ -437,7 +533,9 @@ theorem doCreateLike_spec (pp : Path) (n : Name) (isMkdir : Bool) (meth : Method
     (hlo : pm.loaded = true) :
     Outcome (doCreateLike pp n isMkdir (mkChildOf meth n X) s)
       (fun _ s' => Consistent s' ∧
-        (isMkdir = true → (∃ o, s.mem (n :: pp) = some o) → (s'.disk.nodeAt 0 (n :: pp)).isOpaqueDir = true))
+        (isMkdir = true → (∃ o, s.mem (n :: pp) = some o) → (s'.disk.nodeAt 0 (n :: pp)).isOpaqueDir = true) ∧
+        (∃ X', specStat s'.disk (n :: pp) = some X' ∧ X'.view = X.view) ∧
+        (isMkdir = true → ∀ c, specStat s'.disk (c :: n :: pp) = none))
       (fun s' => Consistent s') := by
   have hl := hc.toLocal
   unfold doCreateLike
@@ -517,7 +615,7 @@ theorem doCreateLike_spec (pp : Path) (n : Name) (isMkdir : Bool) (meth : Method
           | err e s3 => rw [hres2] at hct; exact hct
           | ok u2 s3 =>
             rw [hres2] at hct
-            refine ⟨hct.1, fun hmk ⟨o, ho⟩ => hct.2 hmk ?_⟩
+            refine ⟨hct.1, fun hmk ⟨o, ho⟩ => hct.2.1 hmk ?_, hct.2.2⟩
             cases old with
             | some o' => rfl
             | none =>
